@@ -135,6 +135,23 @@ theorem error_linecol (b : List Byte) (e : Utf8Error) (h : validateScalar b = so
     have : ¬ r.2 > b.length := by omega
     simp [this]
 
+/-- The statement that adds to `line` in the word loop of `line_and_column`, regenerated from the
+source on every run (`Gen.utf8_line_inc`, from `line += mask.count_ones() as usize;`), is the
+`popc mask` the model adds. -/
+theorem line_increment_generated_eq (m : BitVec 64) : (Gen.utf8_line_inc m).toNat = popc m :=
+  line_inc_toNat m
+
+example : (Gen.utf8_line_inc 0x8000008000800080#64).toNat = 4 := by decide
+
+/-- The text of `line_and_column` (comments stripped, whitespace normalised; hashed by
+`tools/props/C13.py` on every run into `Gen.UTF8_LINECOL_SRC_HASH`) is the text the model
+`lineAndColumn` / `lineColGo` / `lineColTail` was written from: one `line += mask.count_ones()` per
+word with a non-zero newline mask (translated: `Gen.utf8_line_inc`), `line_start` from the highest
+set bit, one `line += 1` per `\n` in the byte tail, nothing accumulated across words.  Any change to
+how the count is accumulated changes the hash and breaks this obligation (then re-derive the model
+and update the number). -/
+theorem line_and_column_source_pinned : Gen.UTF8_LINECOL_SRC_HASH = 1034846609437025494 := by decide
+
 /-- `line_and_column` itself (any input, any offset): the LF line/column, or a panic past the end. -/
 theorem line_and_column_eq (input : List Byte) (offset : Nat) :
     lineAndColumn input offset = if offset > input.length then none else some (lineColLF input offset) :=
